@@ -11,7 +11,8 @@ RULE = ("target files of 1..40 lines: valid entries in several spellings (key or
         "empty object, bad address, port 0/65536/negative/huge, wrong member types, invalid JSON, blank, line > 64 KiB); "
         "commands tcp / udp / socks-docker-elastic / icmp; modes pairs, addresses x 1..3 port ranges, port-less; source regular "
         "file, stdin, missing file; --exclude on/off; ARP cache on/off with and without gateway MAC; plus request streams "
-        "that already carry errors through filter/cache in all four stackings; non-trivial = at least one bad entry or "
+        "that already carry errors through filter/cache in all four stackings; bursts of 230..380 bad entries in a row through the "
+        "real GenericEngine and PacketEngine with an error consumer that starts 300..500 ms late; non-trivial = at least one bad entry or "
         "error request reached; distinct by case seed")
 
 CODES = {1: "error return of GenerateRequests differs from the model", 2: "request sequence differs from the model",
@@ -379,7 +380,7 @@ def replay(ctx, path):
         return 1
     ctx.harness_run("c13", ["-out", "one.jsonl", "-replay", "%s:%d" % (i["kind"], i["case_seed"])], timeout=600)
     o = ctx.read_jsonl(os.path.join(ctx.work, "one.jsonl"))[0]
-    why = spec_on_impl(o)
+    why = burst_spec(o) if o["kind"] == "burst" else spec_on_impl(o)
     print("replay %s case seed=%d: %s" % (i["kind"], i["case_seed"], why or "property holds on this input"))
     print(json.dumps({k: v for k, v in o.items() if k not in ("out", "in", "lines_enc", "cache_enc")})[:1500])
     return 1 if why else 0
